@@ -114,6 +114,15 @@ CLAIMED.update({
          "stream; each run is validated by TLC against PgConn and the transcript digests must coincide.",
          CONN_NOTE, "TLA+ specs (PgReader, PgConn) + TLC model checking + replay on the real Reader + TLC trace validation "
          "of five segmentations per stream with transcript-digest equality", "4 C03"),
+ "C18": ("(a) the allocation machine of PgReader (advance into spare capacity or fresh allocation; oversized messages skipped "
+         "in chunks): TLC checks that no window ever overlaps a body handed out earlier; every size sequence is replayed on "
+         "the real buffer.Reader with the harness retaining every body, and TLC validates capacity, allocation identity and "
+         "intactness after every operation. (b) on the real server the callbacks retain every query text, parameter value, "
+         "client parameter and password with private copies while messages of sizes around 4096 and the limit (padded "
+         "queries, parameters, skipped oversized messages, COPY data) follow; the specification requires every later "
+         "callback and the end of the run to find everything intact.",
+         CONN_NOTE, "TLA+ specs (PgReader allocation machine, PgConn) + TLC model checking + replay on the real Reader/server "
+         "with retained data + TLC trace validation", "4 C18"),
 })
 NOT_YET = "machinery for this property is not built yet in this revision (planned, see DESIGN.md section 4)"
 
